@@ -32,6 +32,9 @@ trait V: Clone + IsNone + 'static {
     const KIND: Kind;
     const OPT: bool;
     fn values(th: bool, rng: &mut Rng) -> Vec<Self>;
+    /// non-canonical nulls (`Some(NaN)`, `Some(NaT)`: DESIGN 5.4 keeps them out of the properties, but the comparator closures that
+    /// handle them are code the model mirrors - a mutation campaign found them exercised by nothing); used by the order cases only
+    fn noncanonical(_th: bool, _rng: &mut Rng) -> Vec<Self> { vec![] }
     fn coq(&self) -> String; // Gallina literal of type `val CODE`
     fn cells(&self) -> Vec<Cell>; // = Run.RunC15.enc CODE
     fn show(&self) -> String;
@@ -486,6 +489,10 @@ macro_rules! impl_v_opt {
                 v.extend(<$t as V>::values(th, rng).into_iter().filter(|x| !x.is_none()).map(Some));
                 v
             }
+            fn noncanonical(th: bool, rng: &mut Rng) -> Vec<Self> {
+                let mut seen = 0;
+                <$t as V>::values(th, rng).into_iter().filter(|x| x.is_none()).filter(|_| { seen += 1; seen <= 2 }).map(Some).collect()
+            }
             fn coq(&self) -> String { coq_opt(self, |x| x.coq()) }
             fn cells(&self) -> Vec<Cell> {
                 match self {
@@ -822,6 +829,9 @@ fn order_values<T: V>(cx: &Ctx) -> Vec<T> {
     }
     // ties
     out.push(all[0].clone());
+    // Some(null) values, for the comparators only
+    let mut rng2 = cx.rng.clone();
+    out.extend(T::noncanonical(cx.th, &mut rng2));
     out
 }
 
